@@ -37,7 +37,7 @@ type kCond struct {
 }
 
 type kStmt struct {
-	k     string // skip seq set setfn setcall block ite while forc rng print ret brk cont
+	k     string // skip seq set setfn setcall iife block ite while forc rng print ret brk cont
 	d     bool
 	x     int
 	e     *kExpr
@@ -177,6 +177,17 @@ func (s *kStmt) sexp() string {
 			ps = append(ps, fmt.Sprint(p))
 		}
 		return fmt.Sprintf("(setfn %s %d (%s) %s %s)", flag(s.d), s.x, strings.Join(ps, " "), s.body.sexp(), s.e.sexp())
+	case "iife":
+		// `x := func(ps) int { body; return res }(args)`: literal evaluation + call, through a name of its own
+		var ps []string
+		for _, p := range s.ps {
+			ps = append(ps, fmt.Sprint(p))
+		}
+		parts := []string{"setcall", flag(s.d), fmt.Sprint(s.x), fmt.Sprint(s.f)}
+		for _, a := range s.args {
+			parts = append(parts, a.sexp())
+		}
+		return fmt.Sprintf("(seq (setfn 1 %d (%s) %s %s) (%s))", s.f, strings.Join(ps, " "), s.body.sexp(), s.e.sexp(), strings.Join(parts, " "))
 	case "setcall":
 		parts := []string{"setcall", flag(s.d), fmt.Sprint(s.x), fmt.Sprint(s.f)}
 		for _, a := range s.args {
@@ -238,6 +249,22 @@ func (s *kStmt) render(b *strings.Builder, ind int) {
 		fmt.Fprintf(b, "%s%s %s %s {\n", tab, nameOf(s.x), asg(s.d), sig)
 		s.body.render(b, ind+1)
 		fmt.Fprintf(b, "%s\treturn %s\n%s}\n", tab, s.e.top(), tab)
+		use(s.d, s.x)
+	case "iife":
+		var ps, as []string
+		for _, p := range s.ps {
+			ps = append(ps, nameOf(p))
+		}
+		for _, a := range s.args {
+			as = append(as, a.top())
+		}
+		sig := "func() int"
+		if len(ps) > 0 {
+			sig = "func(" + strings.Join(ps, ", ") + " int) int"
+		}
+		fmt.Fprintf(b, "%s%s %s %s {\n", tab, nameOf(s.x), asg(s.d), sig)
+		s.body.render(b, ind+1)
+		fmt.Fprintf(b, "%s\treturn %s\n%s}(%s)\n", tab, s.e.top(), tab, strings.Join(as, ", "))
 		use(s.d, s.x)
 	case "setcall":
 		var as []string
@@ -530,7 +557,7 @@ func declaredTop(s *kStmt, id int) bool {
 	switch s.k {
 	case "seq":
 		return declaredTop(s.a, id) || declaredTop(s.b, id)
-	case "set", "setfn", "setcall":
+	case "set", "setfn", "setcall", "iife":
 		return s.d && s.x == id
 	}
 	return false
@@ -600,6 +627,30 @@ func freeNames(s *kStmt, bound map[int]bool, free map[int]bool) {
 		} else {
 			use(s.x)
 		}
+	case "iife":
+		b2 := map[int]bool{}
+		for k := range bound {
+			b2[k] = true
+		}
+		for _, p := range s.ps {
+			b2[p] = true
+		}
+		freeNames(s.body, b2, free)
+		m := map[int]bool{}
+		s.e.vars(m)
+		for id := range m {
+			if !b2[id] && !declaredTop(s.body, id) {
+				free[id] = true
+			}
+		}
+		for _, a := range s.args {
+			useE(a)
+		}
+		if s.d {
+			bound[s.x] = true
+		} else {
+			use(s.x)
+		}
 	case "setcall":
 		for _, a := range s.args {
 			useE(a)
@@ -663,6 +714,67 @@ func (g *kGen) recursive(x int) *kStmt {
 		e: &kExpr{k: "bin", op: op, a: &kExpr{k: "var", n: int64(t)}, b: &kExpr{k: "var", n: int64(n)}}, recur: true}
 }
 
+// iife: `x (:=|=) func(ps) int { body; return res }(args)` — a function literal called where it is written. In the
+// protocol term the literal goes through a name of its own (ids 200 + arity, never rendered, never otherwise used):
+// literal evaluation, then a call. Inside a loop the body stores an inner literal over the loop variable into an
+// outer function variable, which is called after the loop (the shape of seed C01-4).
+func (g *kGen) iife(depth int) *kStmt {
+	ar := g.r.Intn(3)
+	// the body may call what the context may call: take the literal's rank from the highest usable name
+	var fn, best = -1, 0
+	for _, id := range fnIds(ar) {
+		if fnRank(id) < g.maxRank && fnRank(id) > best {
+			fn, best = id, fnRank(id)
+		}
+	}
+	if fn < 0 {
+		return nil
+	}
+	lit := g.funcLit(false, fn, depth)
+	if len(g.loopVars) > 0 && best > 1 {
+		// an inner literal over the enclosing loop variable escapes through an outer function variable
+		lv := g.loopVars[len(g.loopVars)-1]
+		save := g.maxRank
+		g.maxRank = best
+		outs := g.fnVisible(0)
+		g.maxRank = save
+		if len(outs) > 0 {
+			out := pickInt(g.r, outs)
+			inner := &kStmt{k: "setfn", x: out, body: &kStmt{k: "skip"},
+				e: &kExpr{k: "bin", op: []string{"add", "mul", "sub"}[g.r.Intn(3)], a: &kExpr{k: "var", n: int64(lv)}, b: g.lit()}}
+			shadowed := false
+			for _, p := range lit.ps {
+				shadowed = shadowed || p == lv || p == out
+			}
+			if !shadowed && !declaredTop(lit.body, lv) && !declaredTop(lit.body, out) {
+				lit.body = &kStmt{k: "seq", a: lit.body, b: inner}
+				g.captured[lv] = true
+				g.feat["clos:iife-inner-closure-escapes"] = true
+				g.feat["clos:captures-loop-variable"] = true
+			}
+		}
+	}
+	var args []*kExpr
+	for i := 0; i < ar; i++ {
+		args = append(args, g.expr(1))
+	}
+	st := &kStmt{k: "iife", f: 200 + ar, ps: lit.ps, body: lit.body, e: lit.e, args: args}
+	g.feat["clos:literal-called-in-place"] = true
+	if g.r.Intn(2) == 0 {
+		if x, ok := g.declName(isIntName, generalInts); ok {
+			g.declare(x)
+			st.d, st.x = true, x
+			return st
+		}
+	}
+	vs := g.visible(func(id int) bool { return id < nInt && !g.protected[id] })
+	if len(vs) == 0 {
+		return nil
+	}
+	st.x = pickInt(g.r, vs)
+	return st
+}
+
 // perIteration: closures of distinct iterations kept under distinct function names, each returning (an
 // expression of) the loop variable x: `if x == lo+j { fj = func() int { …; return x … } }`
 func (g *kGen) perIteration(x int, lo int64, depth int) []*kStmt {
@@ -701,7 +813,7 @@ func (g *kGen) stmt(depth int) *kStmt {
 	g.budget--
 	deep := depth >= 3
 	for tries := 0; tries < 8; tries++ {
-		switch k := g.r.Intn(22); {
+		switch k := g.r.Intn(24); {
 		case k < 2: // x := e (int)
 			if x, ok := g.declName(isIntName, generalInts); ok {
 				e := g.expr(2)
@@ -851,6 +963,11 @@ func (g *kGen) stmt(depth int) *kStmt {
 			if g.r.Intn(2) == 0 {
 				ss = append(ss, g.perIteration(x, lo, depth+1)...)
 			}
+			if g.r.Intn(3) == 0 {
+				if st := g.iife(depth + 1); st != nil {
+					ss = append(ss, st)
+				}
+			}
 			g.pop()
 			g.loopVars = g.loopVars[:len(g.loopVars)-1]
 			g.inLoop--
@@ -918,6 +1035,11 @@ func (g *kGen) stmt(depth int) *kStmt {
 				if g.r.Intn(2) == 0 {
 					ss = append(ss, g.perIteration(x, 0, depth+1)...)
 				}
+				if g.r.Intn(3) == 0 {
+					if st := g.iife(depth + 1); st != nil {
+						ss = append(ss, st)
+					}
+				}
 				g.loopVars = saveLV
 				g.inLoop--
 				g.pop()
@@ -959,6 +1081,10 @@ func (g *kGen) stmt(depth int) *kStmt {
 			return &kStmt{k: "block", a: kseq([]*kStmt{
 				{k: "set", d: true, x: bnd, e: init},
 				{k: "rng", x: x, e: &kExpr{k: "var", n: int64(bnd)}, a: bd}})}
+		case (k == 20 || k == 21) && !deep: // function literal called in place
+			if st := g.iife(depth); st != nil {
+				return st
+			}
 		case k == 17 && g.inLoop > 0:
 			kw := []string{"brk", "cont"}[g.r.Intn(2)]
 			g.feat["clos:break-or-continue"] = true
@@ -981,7 +1107,7 @@ func level2(s *kStmt, encl []map[int]bool, found *bool) {
 	case "ite":
 		level2(s.a, encl, found)
 		level2(s.b, encl, found)
-	case "setfn":
+	case "setfn", "iife":
 		free := map[int]bool{}
 		bound := map[int]bool{}
 		for _, p := range s.ps {
